@@ -17,6 +17,6 @@ for f in $(git diff --name-only --diff-filter=U); do
   esac
 done
 # files of a clashing seeded dir that did not conflict textually (e.g. demo.rs only on their side) stay where they are
-if git diff --name-only --diff-filter=U | grep -q .; then echo "conflicts remain"; exit 1; fi
+if git diff --name-only --diff-filter=U | grep -q .; then echo "CONFLICTS REMAIN (merge aborted):"; git diff --name-only --diff-filter=U; git merge --abort; exit 1; fi
 git commit -qm "merge $B" 2>/dev/null || true
 git log --oneline -1
